@@ -11,12 +11,63 @@ def runsOf : Bytes → Nat → Nat → List Run → List Run × Nat
     else if cur > 0 then runsOf r 1 0 (⟨gap, cur⟩ :: acc)
     else runsOf r (gap + 1) 0 acc
 
+/-! ### Delimiter runs of a one-paragraph text over letters, spaces, `*` and `_` (glue for the K stage:
+`scan_delims` + `push_delimiter` restricted to ASCII; not part of the proved model) -/
+
+inductive CC | ws | punct | other
+  deriving DecidableEq
+
+def ccOf (b : UInt8) : CC :=
+  if b = 0x20 ∨ (0x09 ≤ b ∧ b ≤ 0x0D) then .ws
+  else if (0x21 ≤ b ∧ b ≤ 0x2F) ∨ (0x3A ≤ b ∧ b ≤ 0x40) ∨ (0x5B ≤ b ∧ b ≤ 0x60) ∨ (0x7B ≤ b ∧ b ≤ 0x7E) then .punct
+  else .other
+
+def flank (c : UInt8) (before after : CC) : Bool × Bool :=
+  let lf := after != .ws && !(after == .punct && before != .ws && before != .punct)
+  let rf := before != .ws && !(before == .punct && after != .ws && after != .punct)
+  if c = 0x5F then (lf && (!rf || before == .punct), rf && (!lf || after == .punct)) else (lf, rf)
+
+def spanRun (c : UInt8) : Bytes → Nat × Bytes
+  | [] => (0, [])
+  | b :: r => if b = c then let (n, r') := spanRun c r; (n + 1, r') else (0, b :: r)
+
+def emDelims : Nat → CC → Nat → Bytes → List Delim
+  | 0, _, _, _ => []
+  | _, _, _, [] => []
+  | fuel + 1, prev, pos, b :: r =>
+    if b = 0x2A ∨ b = 0x5F then
+      let (n, rest) := spanRun b r
+      let len := n + 1
+      let after := match rest with | [] => CC.ws | a :: _ => ccOf a
+      let (co, cc) := flank b prev after
+      (if co || cc then [(⟨b, len, len, co, cc, pos + len⟩ : Delim)] else []) ++ emDelims fuel .punct (pos + len) rest
+    else emDelims fuel (ccOf b) (pos + 1) r
+
+/-- Decidable form of `C06.noOddMatch` (hypothesis of `emphasis_linear_pinned`). -/
+def noOddB (ds : List Delim) : Bool :=
+  ds.all fun o => ds.all fun c => !(o.canOpen && c.canClose && o.ch == c.ch) || !oddMatch o c
+
+def optNat : Option Nat → String
+  | some k => toString k
+  | none => "none"
+
 def handle : Handler := fun cmd args =>
   match cmd, args with
   | "c06bt", [h] => some do
       let b ← hexArg h
       let (rs, tail) := runsOf b 0 0 []
       pure s!"{btStepsPos rs tail} {btSteps rs tail} {totalLen rs + tail}"
+  | "c06em", [h] => some do
+      let b ← hexArg h
+      let ds := emDelims b.length .ws 0 b
+      -- <steps as pinned> <steps with the repair> <delimiters> <delimiter characters> <no odd match: 1/0>
+      pure s!"{optNat (emSteps false ds)} {optNat (emSteps true ds)} {ds.length} {sumCur ds} {if noOddB ds then 1 else 0}"
+  | "c06dl", [h] => some do
+      let b ← hexArg h
+      let ev := dlEvents b
+      let allFail := ev.all fun e => e.ranOut
+      -- <dollar-scan steps> <executed openers> <every scan ran to the end: 1/0> <cdSteps of the pieces between the openers>
+      pure s!"{dlSteps b} {ev.length} {if allFail then 1 else 0} {cdSteps (cdPieces b.length (ev.map (·.dpos)))}"
   | "c06cd", [n, p] => some do
       match n.toNat?, p.toNat? with
       | some n, some p => pure (toString (cdSteps (List.replicate n p)))
